@@ -407,7 +407,7 @@ pub fn run(ctx: &mut Ctx) {
     let cases = pure_cases();
     let gs = ["pcsaft/gross2001.json", "pcsaft/gross2002.json", "pcsaft/gross2006.json", "pcsaft/gross2005_fit.json"];
     let mut tp = vec![];
-    let (ntr, npr) = (tier.pick(7, 20), tier.pick(5, 10));
+    let (ntr, npr) = (tier.pick(7, 37), tier.pick(5, 21));
     let mut k = 0;
     for c in &cases {
         let is_gs = gs.contains(&c.file.as_str());
@@ -462,6 +462,6 @@ pub fn run(ctx: &mut Ctx) {
         }
     }
     ctx.run(&nw, |c| format!("newton|{}|T={}|eta={}", c.0, c.3, c.4), newton_case);
-    ctx.rule = format!("E1: every subset of the optional constructor inputs (2^8 for State::new, 2^11 for State::new_full) x component count {{1,2}} x a poisoned value (NaN, +inf, -1, wrong vector length) in each present T/V/rho/rho_i/N/N_i/x_i input vs a reference decision table written from the documented hierarchy, with echo of every given quantity; E2: Gross-Sadowski PC-SAFT records (success clause) and SAFT-VR Mie, PR, PeTS, gc-PC-SAFT, mixtures (conditions) x T_r ({ntr} points in [0.45,1.65]) x p_r ({npr} points in [1e-4,10], log) x {{no hint, vapor, liquid}} + 12 initial densities incl. the unstable region: p reproduced to 1e-7, no-hint = lower Gibbs energy root, vapor-hint density < liquid-hint density, deviation: each / both of the two shadowed density iterations of new_npt forced to fail (H3); E3: new_nph/nps/nth/nts/nvu asked for the (p,h),(p,s),(T,h),(T,s),(V,u) of reachable single-phase states with guesses x{{1,0.8,1.25}}");
+    ctx.rule = format!("E1: every subset of the optional constructor inputs (2^8 for State::new, 2^11 for State::new_full) x component count {{1,2}} x a poisoned value (NaN, +inf, -1, wrong vector length) in each present T/V/rho/rho_i/N/N_i/x_i input vs a reference decision table written from the documented hierarchy, with echo of every given quantity; E2 (uniform T_r lattice plus a band just below T_c where the liquid spinodal pressure is positive): Gross-Sadowski PC-SAFT records (success clause) and SAFT-VR Mie, PR, PeTS, gc-PC-SAFT, mixtures (conditions) x T_r ({ntr} points in [0.45,1.65]) x p_r ({npr} points in [1e-4,10], log) x {{no hint, vapor, liquid}} + 12 initial densities incl. the unstable region: p reproduced to 1e-7, no-hint = lower Gibbs energy root, vapor-hint density < liquid-hint density, deviation: each / both of the two shadowed density iterations of new_npt forced to fail (H3); E3: new_nph/nps/nth/nts/nvu asked for the (p,h),(p,s),(T,h),(T,s),(V,u) of reachable single-phase states with guesses x{{1,0.8,1.25}}");
     ctx.assume("(T, p, rho0) on the stated lattices; models = Gross-Sadowski records + zoo subset");
 }
